@@ -66,11 +66,16 @@ func quietCtx() context.Context {
 
 // Start builds a Commander on store (as engine.New does), initialises it from the store and starts its runner (free-running).
 func Start(store *memstore.Store, pub *Publisher) *Engine {
+	return StartWithCompiler(store, pub, command.NewCompiler(64))
+}
+
+// StartWithCompiler: as Start, with the (possibly shared) compilation cache given.
+func StartWithCompiler(store *memstore.Store, pub *Publisher, compiler *command.Compiler) *Engine {
 	if pub == nil {
 		pub = &Publisher{Store: store}
 	}
 	e := &Engine{Store: store, Pub: pub, ctx: quietCtx()}
-	e.Cmd = command.New(store, command.NewDefaultLocker(), command.NewCompiler(64), command.NewReferencer(), bus.NewLedgerMonitor(pub, "l1"))
+	e.Cmd = command.New(store, command.NewDefaultLocker(), compiler, command.NewReferencer(), bus.NewLedgerMonitor(pub, "l1"))
 	if err := e.Cmd.Init(e.ctx); err != nil {
 		panic(err)
 	}
